@@ -330,6 +330,19 @@ func runC14(c *core.Ctx, res *core.Result) {
 			return
 		}
 	}
+	// a lone write after the replicas have gone idle (every 6th scenario)
+	if c.Idx%6 == 0 && len(res.Violations) == 0 {
+		time.Sleep(2500 * time.Millisecond)
+		pn.eng.Put([]byte("lone-write-after-idle"), val(20))
+		feat2 := map[string]string{"workload": workload, "join": join, "event": event, "primary_rotated": fmt.Sprint(rotated), "lone_write_after_idle": "true"}
+		for i, rn := range reps {
+			res.Count("lone_write_waits", 1)
+			if _, diff := waitConverged(pn.eng, rn.eng, 40*time.Second); diff != "" {
+				res.Violate("replica_did_not_converge", fmt.Sprintf("%s: all replicas had converged and were idle for 2.5s; the primary then wrote a single entry and replica %d made no progress for 40s: %s", desc, i, diff), feat2)
+				break
+			}
+		}
+	}
 	res.Count("primary_entries", int64(entries))
 	res.Count("primary_transactions", int64(txs))
 	res.Sig = core.Sig(workload, join, event, nrep, cfg.SyncMode)
